@@ -184,4 +184,26 @@ MUTANTS += [
          "    def _do_put(self, event: StorePut) -> bool:\n        if len(self.items) < self._capacity:\n            self.items.append(event.item)",
          "    def _do_put(self, event: StorePut) -> bool:\n        if len(self.items) <= self._capacity - (self._capacity < 3):\n            self.items.append(event.item)")]),
 ]
+
+PORT = 'onl/netdev/port.py'
+REDP = 'onl/netdev/red_port.py'
+PMON = 'onl/netdev/port_monitor.py'
+MUTANTS += [
+    # ---- C09
+    dict(prop='C09', name='byte-limit-ge', edits=[(PORT, "self.limit_bytes and byte_count > self.qlimit", "self.limit_bytes and byte_count >= self.qlimit")]),
+    dict(prop='C09', name='packet-limit-gt', edits=[(PORT, "len(self.store.items) >= self.qlimit - 1", "len(self.store.items) > self.qlimit - 1")]),
+    dict(prop='C09', name='packet-limit-no-reserved-place', edits=[(PORT, "len(self.store.items) >= self.qlimit - 1", "len(self.store.items) >= self.qlimit")]),
+    dict(prop='C09', name='byte-size-released-at-transmission-start', edits=[(PORT,
+         "            if self.rate > 0:\n                yield env.timeout(packet.size * 8 / self.rate)\n            self.byte_size -= packet.size\n",
+         "            self.byte_size -= packet.size\n            if self.rate > 0:\n                yield env.timeout(packet.size * 8 / self.rate)\n")]),
+    dict(prop='C09', name='drop-counter-not-incremented-in-byte-mode', edits=[(PORT,
+         "            self.packets_dropped += 1\n            if self.debug:\n                print(\n                    f\"Packet dropped",
+         "            self.packets_dropped += 0 if self.limit_bytes and self.packets_dropped > 1 else 1\n            if self.debug:\n                print(\n                    f\"Packet dropped")]),
+    dict(prop='C09', name='tx-time-uses-1000-bits-per-byte-typo', edits=[(PORT, "packet.size * 8 / self.rate", "(packet.size * 8 if packet.size != 1000 else 8192) / self.rate")]),
+    dict(prop='C09', name='stamp-with-packet-creation-time', edits=[(PORT, "packet.perhop_time[self.element_id] = self.env.now", "packet.perhop_time[self.element_id] = packet.time")]),
+    dict(prop='C09', name='red-min-max-swapped', edits=[(REDP, "        elif self.average_queue_size >= self.min_threshold:", "        elif self.average_queue_size > self.min_threshold * 1.5:")]),
+    dict(prop='C09', name='red-probability-inverted', edits=[(REDP, "            if rand <= prob:", "            if rand >= prob:")]),
+    dict(prop='C09', name='red-qlimit-gt', edits=[(REDP, "        if self.average_queue_size >= self.qlimit:", "        if self.average_queue_size > self.qlimit + 1:")]),
+    dict(prop='C09', name='monitor-excluded-forgets-busy', edits=[(PMON, "self.port.byte_size - self.port.busy_packet_size", "self.port.byte_size - self.port.busy_packet_size * self.port.busy * (len(self.port.store.items) > 0)")]),
+]
 MUTANTS.sort(key=lambda m: (m['prop'], m['name']))
